@@ -434,6 +434,19 @@ impl<'a> FnTr<'a> {
                                 assigned_vars_if(ei, &mut vars);
                             } else {
                                 vars = assigned_roots(e, &self.muts);
+                                let mut cs = vec![];
+                                flatten_and(&ei.cond, &mut cs);
+                                for c in cs {
+                                    if let Expr::Let(l) = c {
+                                        if let Expr::MethodCall(mc) = &*l.expr {
+                                            if let Some(r) = place_root(&mc.receiver) {
+                                                if self.muts.contains(&r) {
+                                                    vars.push(r);
+                                                }
+                                            }
+                                        }
+                                    }
+                                }
                             }
                             vars.retain(|v| env.contains_key(v));
                             vars.sort();
@@ -558,6 +571,29 @@ impl<'a> FnTr<'a> {
         }
         let mut stc: Stmts = vec![];
         match conj[i] {
+            Expr::Let(l) if self.lens_call(&l.expr, env_t)?.is_some() => {
+                // builder L: `let Some(x) = recv.lens()` where `lens(&mut self) -> Option<&mut T>`: `x` is a copy
+                // that is written back into `recv` after the branch
+                let (get, set, inner_ty, recv) = self.lens_call(&l.expr, env_t)?.unwrap();
+                let (root, fields, _) = self.place(recv, env_t)?;
+                let (rt, _) = self.ex(recv, env_t, &mut stc, None)?;
+                let sty = Ty::Opt(Box::new(inner_ty));
+                let p = self.pat(&l.pat, &sty, env_t)?;
+                let mut xs = vec![];
+                pat_idents(&l.pat, &mut xs);
+                if xs.len() != 1 {
+                    return Err("lens pattern must bind exactly one variable".into());
+                }
+                let x = lean_ident(&xs[0]);
+                let wb = (lean_ident(&root), Rhs::Pure(update_term(&lean_ident(&root), &fields, &format!("({} {} {})", set, paren(&rt), x))));
+                let mut mk2 = |this: &mut Self, env: &mut Env| -> Res<Seq> {
+                    let mut s = mk_then(this, env)?;
+                    s.stmts.push(wb.clone());
+                    Ok(s)
+                };
+                let inner = self.if_chain_go(conj, i + 1, env_t, &mut mk2, else_seq)?;
+                Ok(Seq { stmts: stc, tail: Tail::Match(format!("({} {})", get, paren(&rt)), vec![(p, inner), ("none".to_string(), else_seq.clone())]) })
+            }
             Expr::Let(l) => {
                 let (sc, sty) = self.ex(&l.expr, env_t, &mut stc, None)?;
                 let p = self.pat(&l.pat, &sty, env_t)?;
@@ -681,6 +717,137 @@ impl<'a> FnTr<'a> {
         self.reg.helpers.borrow_mut().push(lean_name);
         self.reg.dyn_fns.borrow_mut().insert(key, fsig.clone());
         Ok(fsig)
+    }
+
+    /// builder L: is `e` a call `recv.m()` of a method `m(&mut self) -> Option<&mut T>` of a modelled struct?
+    /// Returns (getter, setter, T, receiver).
+    fn lens_call<'e>(&mut self, e: &'e Expr, env: &Env) -> Res<Option<(String, String, Ty, &'e Expr)>> {
+        let m = match e {
+            Expr::MethodCall(m) if m.args.is_empty() => m,
+            _ => return Ok(None),
+        };
+        let tn = match self.place(&m.receiver, env) {
+            Ok((_, _, Ty::Named(tn))) => tn,
+            _ => return Ok(None),
+        };
+        match self.lens_method(&tn, &m.method.to_string())? {
+            Some((g, s, t)) => Ok(Some((g, s, t, &*m.receiver))),
+            None => Ok(None),
+        }
+    }
+
+    /// builder L: `fn m(&mut self) -> Option<&mut T> { match &mut self.f { V(x) => Some(x), .. => None } }` as a
+    /// getter / setter pair (emitted once, as helpers)
+    fn lens_method(&mut self, tn: &str, name: &str) -> Res<Option<(String, String, Ty)>> {
+        let files = match self.reg.files.clone() {
+            Some(f) => f,
+            None => return Ok(None),
+        };
+        let (sig, body) = match find_inherent_method(&files, tn, name) {
+            Some(x) => x,
+            None => return Ok(None),
+        };
+        // return type Option<&mut T>
+        let inner = match &sig.output {
+            ReturnType::Type(_, t) => match &**t {
+                Type::Path(tp) if tp.path.segments.last().unwrap().ident == "Option" => match &tp.path.segments.last().unwrap().arguments {
+                    PathArguments::AngleBracketed(ab) => match ab.args.first() {
+                        Some(GenericArgument::Type(Type::Reference(r))) if r.mutability.is_some() => (*r.elem).clone(),
+                        _ => return Ok(None),
+                    },
+                    _ => return Ok(None),
+                },
+                _ => return Ok(None),
+            },
+            _ => return Ok(None),
+        };
+        let get = format!("{}.{}.get", tn, name);
+        let set = format!("{}.{}.set", tn, name);
+        let sub = FnTr { reg: self.reg, self_ty: Some(tn.to_string()), ret: Ty::Unit, counter: 0, fn_prefix: String::new(), local_fns: HashMap::new(), extra_defs: vec![], muts: vec![], tparams: HashMap::new() };
+        let inner_ty = sub.ty(&inner)?;
+        let key = format!("{}::{}#lens", tn, name);
+        if self.reg.dyn_fns.borrow().contains_key(&key) {
+            return Ok(Some((get, set, inner_ty)));
+        }
+        let m = match body.stmts.as_slice() {
+            [Stmt::Expr(Expr::Match(m), None)] => m,
+            _ => return Err(format!("lens {}::{}: body is not a single match", tn, name)),
+        };
+        let mut env: Env = HashMap::new();
+        env.insert("self".into(), Ty::Named(tn.to_string()));
+        let mut sub = sub;
+        let (root, fields, pty) = sub.place(&m.expr, &env)?;
+        let en = match &pty {
+            Ty::Named(n) => n.clone(),
+            _ => return Err(format!("lens {}::{}: scrutinee is not an enum", tn, name)),
+        };
+        let place_term = std::iter::once(lean_ident(&root)).chain(fields.iter().map(|f| lean_ident(f))).collect::<Vec<_>>().join(".");
+        let mut garms = vec![];
+        let mut sarms = vec![];
+        for arm in &m.arms {
+            if arm.guard.is_some() {
+                return Err(format!("lens {}::{}: guards not supported", tn, name));
+            }
+            // pattern
+            let (ptext_named, ptext_wild, variant, binder) = match &arm.pat {
+                Pat::TupleStruct(ts) if ts.elems.len() == 1 => {
+                    let v = ts.path.segments.last().unwrap().ident.to_string();
+                    let b = match &ts.elems[0] {
+                        Pat::Ident(i) => Some(i.ident.to_string()),
+                        _ => None,
+                    };
+                    (format!("{}.{} {}", en, lean_ident(&v), b.clone().map(|b| lean_ident(&b)).unwrap_or("_".into())), format!("{}.{} _", en, lean_ident(&v)), Some(v), b)
+                }
+                Pat::Path(pp) => {
+                    let v = pp.path.segments.last().unwrap().ident.to_string();
+                    (format!("{}.{}", en, lean_ident(&v)), format!("{}.{}", en, lean_ident(&v)), None, None)
+                }
+                Pat::Ident(i) if i.subpat.is_none() && self.reg.enums.get(&en).map(|v| v.iter().any(|(n, _)| *n == i.ident.to_string())).unwrap_or(false) => {
+                    let v = i.ident.to_string();
+                    (format!("{}.{}", en, lean_ident(&v)), format!("{}.{}", en, lean_ident(&v)), None, None)
+                }
+                Pat::Wild(_) => ("_".to_string(), "_".to_string(), None, None),
+                other => return Err(format!("lens {}::{}: unsupported pattern {}", tn, name, quote::quote!(#other))),
+            };
+            // body: Some(binder) | None
+            let body_e = match &*arm.body {
+                Expr::Block(b) if b.block.stmts.len() == 1 => match &b.block.stmts[0] {
+                    Stmt::Expr(e, None) => e.clone(),
+                    _ => return Err(format!("lens {}::{}: unsupported arm body", tn, name)),
+                },
+                e => e.clone(),
+            };
+            let some_of: Option<String> = match &body_e {
+                Expr::Call(c) if matches!(&*c.func, Expr::Path(p) if p.path.is_ident("Some")) && c.args.len() == 1 => match &c.args[0] {
+                    Expr::Path(p) if p.path.segments.len() == 1 => Some(p.path.segments[0].ident.to_string()),
+                    _ => return Err(format!("lens {}::{}: `Some` of something other than the bound variable", tn, name)),
+                },
+                Expr::Path(p) if p.path.is_ident("None") => None,
+                _ => return Err(format!("lens {}::{}: arm is neither `Some(x)` nor `None`", tn, name)),
+            };
+            match some_of {
+                Some(x) => {
+                    if binder.as_deref() != Some(x.as_str()) {
+                        return Err(format!("lens {}::{}: `Some({})` is not the variable the pattern binds", tn, name, x));
+                    }
+                    let v = variant.unwrap();
+                    garms.push(format!("  | {} => some {}", ptext_named, lean_ident(&x)));
+                    sarms.push(format!("  | {} => {}", ptext_wild, update_term(&lean_ident(&root), &fields, &format!("({}.{} v)", en, lean_ident(&v)))));
+                }
+                None => {
+                    garms.push(format!("  | {} => none", ptext_wild));
+                    sarms.push(format!("  | {} => {}", ptext_wild, lean_ident(&root)));
+                }
+            }
+        }
+        let gtext = format!("/-- `{}::{}` (`Option<&mut _>`), read side -/\ndef {} (self : {}) : Option {} :=\n  match {} with\n{}\n", tn, name, get, tn, inner_ty.lean(), place_term, garms.join("\n"));
+        let stext = format!("/-- `{}::{}` (`Option<&mut _>`), write-back side: stores `v` where the reference pointed -/\ndef {} (self : {}) (v : {}) : {} :=\n  match {} with\n{}\n", tn, name, set, tn, inner_ty.lean(), tn, place_term, sarms.join("\n"));
+        self.extra_defs.push(gtext);
+        self.extra_defs.push(stext);
+        self.reg.helpers.borrow_mut().push(get.clone());
+        self.reg.helpers.borrow_mut().push(set.clone());
+        self.reg.dyn_fns.borrow_mut().insert(key, FnSig { lean: get.clone(), params: vec![], ret: Ty::Unit, fallible: false, muts: vec![] });
+        Ok(Some((get, set, inner_ty)))
     }
 
     fn nested_fn(&mut self, f: &ItemFn) -> Res<()> {
